@@ -96,7 +96,7 @@ def run_models(chk, results):
         results["live"] = tlc_staggered(chk, "MC_OTLRepack", cfg="MC_OTLRepack_live", workers=2, timeout=1500, heap="2g",
                                         label="MC_OTLRepack_live (Terminates under weak fairness)")
 
-    names = ("gsub_off", "gpos_off", "gsub_on", "gpos_on") if thorough else ("gsub_off", "gpos_off", "gsub_on")
+    names = ("gsub_off", "gpos_off", "gsub_on", "gpos_on") if thorough else ("gsub_off", "gpos_off")
     jobs = [pack] + [repack(n) for n in names] + [stuck] + ([live] if thorough else [])
     errs = []
 
@@ -178,7 +178,7 @@ def run_pack_replay(chk, graphs):
     rng = part_rng(chk, "pack")
     small = [g for g in graphs if len(g) <= 3]
     big = [g for g in graphs if len(g) > 3]
-    n = len(big) if thorough else min(len(big), int(4500 * SCALE))
+    n = len(big) if thorough else min(len(big), int(2400 * SCALE))
     rng.shuffle(big)
     chosen = small + big[:n]
     jobs = [(cp.to_bytes_graph(g), "tlc") for g in chosen] + [(g, label) for label, g in cp.handmade_graphs()]
@@ -207,9 +207,9 @@ def run_split_replay(chk, states):
         if k not in seen:
             seen.add(k)
             uniq.append(s)
-    if chk.tier != "thorough" and len(uniq) > 420:
+    if chk.tier != "thorough" and len(uniq) > 240:
         part_rng(chk, "split").shuffle(uniq)
-        uniq = uniq[:420]
+        uniq = uniq[:240]
     traces = common.pmap(c06_split.replay_state, uniq, procs=8, chunksize=16)
     kinds = {}
     for t in traces:
@@ -278,11 +278,11 @@ def corpus_cases(chk):
     if not thorough:
         rng = part_rng(chk, "corpus")
         rng.shuffle(ttx)
-        ttx = ttx[: int(30 * SCALE)]
+        ttx = ttx[: int(12 * SCALE)]
         rng.shuffle(cases)
-        cases = cases[: int(120 * SCALE)]
+        cases = cases[: int(60 * SCALE)]
         rng.shuffle(feas)
-        feas = feas[: int(90 * SCALE)]
+        feas = feas[: int(40 * SCALE)]
     levels = list(range(1, 10)) if thorough else [1, 5, 9]
     for c in cases + ttx + feas:
         c["runs"] = [("F", 0), ("N", 0), ("T", 0)]
@@ -465,8 +465,8 @@ def run(chk):
     pack_traces = run_pack_replay(chk, graphs) if "pack" in PARTS else []
     split_traces = run_split_replay(chk, states) if "split" in PARTS else []
     pool = ThreadPoolExecutor(4)       # the four judgements are independent: they run side by side
-    f_pack = pool.submit(judge_parallel, chk, "Trace_C06", pack_traces, "Trace_C06 pack", None, 2, 5000)
-    f_split = pool.submit(judge_parallel, chk, "Trace_C06", split_traces, "Trace_C06 split", None, 2, 300)
+    f_pack = pool.submit(judge_parallel, chk, "Trace_C06", pack_traces, "Trace_C06 pack", None, 2 if thorough else 1, 5000)
+    f_split = pool.submit(judge_parallel, chk, "Trace_C06", split_traces, "Trace_C06 split", None, 2 if thorough else 1, 300)
 
     # ---- (V) judge ----------------------------------------------------------------------------------
     e2e, loops, owner = [], [], {}
@@ -511,7 +511,7 @@ def run(chk):
     chk.notes["end_to_end"] = stats
     chk.log("judging %d fonts (%d runs) and %d loop traces" % (len(e2e), stats["runs"], len(loops)))
 
-    f_e2e = pool.submit(judge_parallel, chk, "Trace_C06", e2e, "Trace_C06 e2e", None, 4, 40)
+    f_e2e = pool.submit(judge_parallel, chk, "Trace_C06", e2e, "Trace_C06 e2e", None, 4 if thorough else 3, 60)
     f_loop = pool.submit(judge_parallel, chk, "Trace_C06_Loop", loops, "Trace_C06_Loop", lambda part: {"meta": {}, "traces": part}, 1, 100000)
     rej, _x, _r = f_pack.result()
     report_simple(chk, rej, "pack")
